@@ -9,7 +9,7 @@ COMMON_TRUST = [
     "machine integers as mathematical integers (overflow outside the claim; counters assumed < 2^20 where arithmetic occurs)",
 ]
 
-BROKER_H = ["eventlogger/broker_state.go", "eventlogger/broker_ops.go", "eventlogger/c02.go", "eventlogger/c01_c07_c20.go", "eventlogger/c14.go", "eventlogger/c04.go"]
+BROKER_H = ["eventlogger/broker_state.go", "eventlogger/broker_ops.go", "eventlogger/c02.go", "eventlogger/c01_c07_c20.go", "eventlogger/c14.go", "eventlogger/c04.go", "eventlogger/c12.go"]
 
 PROPS = {
     "C02": dict(
@@ -112,5 +112,14 @@ PROPS["C04"] = dict(
     must_reach=["C04.pairs.end"],
     bounds=dict(quick="all 12x12 ordered API pairs on a registry with 2 nodes, <=2 pipelines of one type, a second type; one Send's internal goroutines on one schedule", thorough="same"),
     assumptions=["a data race is a pairwise notion: pairwise freedom from a common pre-state; happens-before only through sync locks, go statements and channel operations of the library itself", "StopTimeAt (test helper) excluded"],
+    trusted_base=COMMON_TRUST,
+)
+PROPS["C12"] = dict(
+    level="other",
+    explanation="Every Broker API call executed symbolically with a registered node that re-enters Send on the same broker from Process, Close or Reopen; the RWMutex contract of the executor reports (a) any acquisition of a lock the goroutine already holds in a conflicting mode (self-deadlock) and (b) a recursive read lock (deadlocks behind a queued writer under Go's writer preference); locks held at return are asserted empty. Counterexamples are replayed natively with a watchdog (and, for (b), a stream of concurrent writers).",
+    jobs=[dict(harness=BROKER_H, entries=r"^H_C12_", params=dict(quick={}, thorough={}), shards=dict(quick=4, thorough=4)),
+          dict(pkg="./filters/gated", harness=["gated/gated.go", "gated/c12.go"], entries=r"^H_C12_", params=dict(quick=dict(G=2), thorough=dict(G=3)), shards=dict(quick=4, thorough=8))],
+    must_reach=["C12.reentry.end", "C12.gated.end"],
+    bounds=dict(quick="12 API operations x re-entry from {Process, Close, Reopen}; one re-entrant node", thorough="same"),
     trusted_base=COMMON_TRUST,
 )
